@@ -30,21 +30,30 @@ Theorem c10_rejected_iff : forall (a : assets) (s : session) (r : resume) (tmo :
   (code = 101 /\ s_status s <> SWaiting) \/
   (code = 102 /\ s_status s = SWaiting /\ Forall (fun rn => r_status rn <> RWaiting) (s_runs s)) \/
   (code = 103 /\ s_status s = SWaiting /\
-     exists wi pos n w, waiting_run s = Some wi /\ ~ flow_missing a s wi /\ ~ resume_limit_reached a s /\
+     exists wi pos n w, waiting_run s = Some wi /\ ~ flow_unusable a s wi /\ ~ resume_limit_reached a s /\
                         resume_site a s wi (Some (pos, n, w)) /\ accepts w r = false).
 Proof. exact reject_iff. Qed.
 Print Assumptions c10_rejected_iff.
 
-(* missing flow, resume limit reached, vanished node / empty path, node without router or wait: the
-   call returns normally (no Go error, no panic), the session is failed, the sprint is exactly one
-   failure event logged by the waiting run, every run that was active or waiting is failed and
-   exited, and nothing else changes *)
+(* flow unusable (missing, or it has become a voice flow and the session has no call), resume limit reached,
+   vanished node / empty path, node without router or wait: the call returns normally (no Go error, no
+   panic), the session is failed, the sprint is exactly one failure event logged by the waiting run, every
+   run that was active or waiting is failed and exited, and nothing else changes *)
 Theorem c10_impossible_fails : forall (a : assets) (s : session) (r : resume) (tmo : text) (wi : nat),
   s_status s = SWaiting -> waiting_run s = Some wi ->
-  flow_missing a s wi \/ resume_limit_reached a s \/ resume_site a s wi None ->
+  flow_unusable a s wi \/ resume_limit_reached a s \/ resume_site a s wi None ->
   exists x', resume_session a s r tmo = Resumed (ROk x') /\ ended_as_failed s wi x'.
 Proof. exact impossible_fails. Qed.
 Print Assumptions c10_impossible_fails.
+
+(* what "unusable" is: the flow asset of the waiting run is gone, or it is now a voice flow while the session was
+   not triggered with a call (in the model: the type of the trigger's flow, kept in s_type, is not voice) *)
+Theorem c10_flow_unusable_iff : forall (a : assets) (s : session) (wi : nat),
+  flow_unusable a s wi <->
+  match get_run s wi with Some rn => get_flow a (r_flow rn) = None | None => True end \/
+  (exists rn f, get_run s wi = Some rn /\ get_flow a (r_flow rn) = Some f /\ f_type f = 2 /\ s_type s <> 2).
+Proof. exact flow_unusable_iff. Qed.
+Print Assumptions c10_flow_unusable_iff.
 
 (* the three cases are exhaustive: a waiting session with a waiting run is rejected (103), failed, or resumed *)
 Theorem c10_resume_site_total : forall (a : assets) (s : session) (wi : nat), exists o, resume_site a s wi o.
